@@ -1,6 +1,7 @@
 # -*- coding: utf-8 -*-
 
 from concurrent.futures import Future
+from threading import Lock
 
 from ..executors import Executors
 from ..common import copy_exception
@@ -74,6 +75,29 @@ def f_return_cancelled():
     f.cancel()
     f.set_running_or_notify_cancel()
     return f
+
+
+class OutputFuture(Future):
+    # A future created by one of the composition functions rather than by an
+    # executor.  Nobody will ever call set_running_or_notify_cancel() on it,
+    # so cancel() has to notify waiters itself: otherwise the future would stay
+    # in the CANCELLED state for ever and concurrent.futures.wait() and
+    # as_completed() would never return it.
+    def __init__(self):
+        super(OutputFuture, self).__init__()
+        self.__cancel_lock = Lock()
+        self.__cancel_notified = False
+
+    def cancel(self):
+        # (callbacks run inside the parent's cancel() and may re-enter here)
+        if not super(OutputFuture, self).cancel():
+            return False
+        with self.__cancel_lock:
+            if self.__cancel_notified:
+                return True
+            self.__cancel_notified = True
+        self.set_running_or_notify_cancel()
+        return True
 
 
 class WeakCallback(object):
